@@ -135,3 +135,58 @@ func VH_C04_MITM_KK() {
 		vAgree(hs, auth)
 	}
 }
+
+// vAuth returns the auth payload the responder is configured with and an
+// independent copy for the oracle. The configured slice either is exactly
+// sized or has spare capacity (as a slice built by append, or cut out of a
+// larger buffer, has): code that writes through it must not change what later
+// handshakes hand out.
+func vAuth(n int) (given, want []byte) {
+	spare := 64 * vIntRange("auth_spare_cap", 0, 1)
+	given = vBytes("auth", n+spare)[:n]
+	want = make([]byte, n)
+	copy(want, given)
+	return
+}
+
+// VH_C04_Reconnect: the first pairing handshake (XX) followed by the repeat
+// handshake (KK) of the same two parties on the same ConnData objects, as
+// every reconnect does. Both must complete, and the second one must agree on
+// everything again - in particular the initiator must again hold exactly the
+// auth payload the responder was configured with.
+func VH_C04_Reconnect() {
+	cfg := &vHSConfig{cMin: 0, cMax: 2, sMin: 0, sMax: 2}
+	cfg.cliPW, cfg.srvPW = vSamePW()
+	given, want := vAuth([4]int{1, 7, 40, 600}[vIntRange("authlen_idx", 0, 3)])
+	cfg.auth = given
+	hs, ok := vSetup(cfg)
+	vAssert(ok, "machine construction failed")
+	vRunHandshake(hs)
+	vAssert(hs.cli.err == nil && hs.srv.err == nil, "first handshake between honest parties failed")
+	if hs.cli.err != nil || hs.srv.err != nil {
+		return
+	}
+	vAgree(hs, want)
+	vReach("first-done")
+	// the repeat handshake: fresh Machines on the same ConnData
+	hs2 := &vHS{cli: hs.cli, srv: hs.srv, c2s: newHalf(), s2c: newHalf()}
+	for i, p := range []*vParty{hs.cli, hs.srv} {
+		p.err, p.done, p.gotAuth, p.authCalls, p.remoteCalls = nil, false, nil, 0, 0
+		m, err := NewBrontideMachine(&BrontideMachineConfig{
+			Initiator: i == 0, HandshakePattern: p.cd.HandshakePattern(), ConnData: p.cd,
+			MinHandshakeVersion: 0, MaxHandshakeVersion: 2,
+		})
+		vAssert(err == nil, "machine construction for the repeat handshake failed")
+		if err != nil {
+			return
+		}
+		p.m = m
+	}
+	vRunHandshake(hs2)
+	vReach("reconnect")
+	vAssert(hs2.cli.err == nil && hs2.srv.err == nil, "repeat handshake between paired honest parties failed")
+	if hs2.cli.err == nil && hs2.srv.err == nil {
+		vReach("both-complete")
+		vAgree(hs2, want)
+	}
+}
